@@ -80,6 +80,11 @@ theorem good_empty (s : St) (k : Kind) (ndim cols n : Nat) :
     Good (s.alloc (emptyObj k ndim cols n)).2.heap n (s.alloc (emptyObj k ndim cols n)).1 :=
   Good.mk (alloc_get s _) (by simp [emptyObj]) (by simp [emptyObj]) (by simp [emptyObj])
 
+/-- converting the epochs of `b` to the scale / format of `a` keeps their number -/
+theorem convRows_length (cv : Conv) (t : String) (ob : Obj) : (convRows cv t ob).length = ob.rows.length := by
+  unfold convRows
+  split <;> simp
+
 /-- **`insert` adds row counts.**  `a` (with everything attached) has `n` rows, `b` has `m`: the result
 has `n + m`, the memo keeps holding only finished objects, the heap only grows. -/
 theorem insertObj_spec (n m : Nat) : ∀ (fuel a pos b : Nat) (s : St) (r : Nat) (s' : St),
@@ -108,7 +113,7 @@ theorem insertObj_spec (n m : Nat) : ∀ (fuel a pos b : Nat) (s : St) (r : Nat)
           · simp at h
           · rename_i hkind
             have hkeq : ob.kind = oa.kind := by
-              have h0 : ¬ (oa.kind != ob.kind) = true := hkind
+              have h0 : ¬ (oa.kind != ob.kind) = true := fun hc => hkind (by simp [hc])
               have h1 : oa.kind = ob.kind := by simpa using h0
               exact h1.symm
             -- the `other` attribute
@@ -228,17 +233,23 @@ theorem insertObj_spec (n m : Nat) : ∀ (fuel a pos b : Nat) (s : St) (r : Nat)
                 obtain ⟨⟨e2, m2⟩, gr⟩ := key2
                 simp only [Except.ok.injEq, Prod.mk.injEq] at h
                 obtain ⟨rfl, rfl⟩ := h
-                let new : Obj := { oa with rows := insertAt oa.rows pos ob.rows, other := oth, refPos := rp }
+                let new : Obj := { oa with rows := insertAt oa.rows pos (convRows s.conv oa.tag ob), other := oth, refPos := rp }
                 have e3 := HeapExt.alloc s2 new
                 have gnew : Good (s2.alloc new).2.heap (n + m) (s2.alloc new).1 := by
                   refine Good.mk (ob := new) (alloc_get s2 new) ?_ ?_ ?_
-                  · show (insertAt oa.rows pos ob.rows).length = n + m
-                    rw [insertAt_length, ha2, hb2]
+                  · show (insertAt oa.rows pos (convRows s.conv oa.tag ob)).length = n + m
+                    rw [insertAt_length, convRows_length, ha2, hb2]
                   · intro x _ hx; exact ((go x hx).ext e2).ext e3
                   · intro x _ hx; exact (gr x hx).ext e3
-                refine ⟨⟨(e1.trans e2).trans e3, ?_⟩, gnew⟩
-                exact MemoGood.set (s := ((s2.alloc new).2.set a (s2.alloc new).1))
-                  (MemoGood.set (s := (s2.alloc new).2) (m2.alloc new) gnew) gnew
+                have ma : MemoGood (n + m) ((s2.alloc new).2.set a (s2.alloc new).1) :=
+                  MemoGood.set (s := (s2.alloc new).2) (m2.alloc new) gnew
+                -- the entry under `id(b)` is made only when `b` was not converted to another scale
+                by_cases hmb : memoB oa.tag ob = true
+                · simp only [hmb, if_true]
+                  refine ⟨⟨(e1.trans e2).trans e3, ?_⟩, gnew⟩
+                  exact MemoGood.set (s := ((s2.alloc new).2.set a (s2.alloc new).1)) ma gnew
+                · simp only [hmb]
+                  exact ⟨⟨(e1.trans e2).trans e3, ma⟩, gnew⟩
         · simp at h
 
 /-- `insertPlain` adds row counts (plain arrays have no references) -/
